@@ -173,6 +173,28 @@ def measure_oracle(args):
                 return f"measure(site={site}, basis={basis}): post-measurement state is not the normalised projection (outcome {outcome})"
     if abs(tot - 1) > 1e-9:
         return "outcome probabilities of measure() do not sum to one"
+    # history on one state object: measure, bring the state back to the form the simulator maintains, measure elsewhere
+    if args.get("history") and L >= 2:
+        import copy
+
+        m = copy.deepcopy(base)
+        cur = v.copy()
+        for step, (st_, bs_, oc_) in enumerate(args["history"]):
+            st_ = st_ % L
+            sr = Scripted([oc_])
+            m.measure(st_, bs_, rng=sr)
+            ket = ROT[bs_].conj().T[:, oc_]
+            pv = dense.op_on(L, {st_: np.outer(ket, ket.conj())}) @ cur
+            pb = float(np.vdot(pv, pv).real)
+            if pb < 1e-9:
+                break
+            if abs(float(sr.ps[0][oc_]) - pb) > 1e-9:
+                return (f"measurement number {step + 1} on one state object (site {st_}, basis {bs_}; earlier measurements {args['history'][:step]}, the state "
+                        f"re-normalised to form B in between): outcome {oc_} gets probability {float(sr.ps[0][oc_]):.10f}, Born probability {pb:.10f}")
+            cur = pv / np.sqrt(pb)
+            if dense.up_to_phase(dense.mps_dense(m), cur) > 1e-8 or abs(np.linalg.norm(dense.mps_dense(m)) - 1) > 1e-8:
+                return f"measurement number {step + 1} on one state object left a state that is not the normalised projection (history {args['history'][:step + 1]})"
+            m.normalize("B")
     return None
 
 
@@ -238,6 +260,8 @@ def search(ctx):
     for k in range(ctx.scale(30, 500)):
         L = int(ctx.rng.integers(1, 5))
         a = dict(seed=int(ctx.rng.integers(0, 2**31)), L=L, chi=int(ctx.rng.integers(1, 5)), site=int(ctx.rng.integers(0, L)), basis=str(ctx.rng.choice(["Z", "X", "Y"])))
+        if k % 2:
+            a["history"] = [(int(ctx.rng.integers(0, 4)), str(ctx.rng.choice(["Z", "X", "Y"])), int(ctx.rng.integers(0, 2))) for _ in range(int(ctx.rng.integers(2, 4)))]
         why = measure_oracle(a)
         ctx.case(nontrivial_key=("measure", a["seed"]))
         ctx.count("measure_inplace")
